@@ -67,6 +67,27 @@ type Ctx struct {
 	Workers  int
 	Self     string
 	VerifDir string
+	Replay   string
+}
+
+// loadReplayScripts extracts the recorded scripts of a replay file written by an earlier run
+func loadReplayScripts(path string) [][]string {
+	var rp struct {
+		Findings []Finding `json:"findings"`
+		First    []Finding `json:"first_differences"`
+	}
+	b, err := os.ReadFile(path)
+	if err != nil {
+		return nil
+	}
+	json.Unmarshal(b, &rp)
+	var out [][]string
+	for _, f := range append(rp.Findings, rp.First...) {
+		if len(f.Case.Lines) > 0 {
+			out = append(out, f.Case.Lines)
+		}
+	}
+	return out
 }
 
 // ---- running line scripts ----
@@ -212,6 +233,7 @@ type Check struct {
 	Technique  string
 	Trusted    []string
 	Exhaustive bool
+	Hist       func(ctx *Ctx) *HistCfg // CLI histories judged by the executable specifications
 }
 
 type Known struct {
@@ -278,16 +300,59 @@ func runCheck(ctx *Ctx, ck *Check, auditPath, factsStatus, evidencePath string) 
 	t0 := time.Now()
 	r := newRng(ctx.Seed)
 	var cases []Case
-	cases = append(cases, loadCorpus(ctx, ck.Prop)...)
-	ncorpus := len(cases)
-	cases = append(cases, ck.Gen(ctx, r)...)
-
-	impl := ck.Impl(ctx, cases)
-	model := runModel(ctx, cases)
+	var histScripts [][]string
+	for _, c := range loadCorpus(ctx, ck.Prop) {
+		if len(c.Lines) > 0 && (strings.HasPrefix(c.Lines[0], "W ") || strings.HasPrefix(c.Lines[0], "X ")) {
+			histScripts = append(histScripts, c.Lines)
+		} else {
+			cases = append(cases, c)
+		}
+	}
+	ncorpus := len(cases) + len(histScripts)
+	if ctx.Replay != "" {
+		for i, sc := range loadReplayScripts(ctx.Replay) {
+			if len(sc) > 0 && !strings.HasPrefix(sc[0], "W ") && !strings.HasPrefix(sc[0], "X ") {
+				cases = append(cases, Case{Name: fmt.Sprintf("replay-%d", i), Lines: sc, Tag: "replay"})
+			}
+		}
+	} else if ck.Gen != nil {
+		cases = append(cases, ck.Gen(ctx, r)...)
+	}
+	var impl, model [][]string
+	if len(cases) > 0 {
+		impl = ck.Impl(ctx, cases)
+		model = runModel(ctx, cases)
+	}
+	napi := len(cases)
 
 	known := loadKnown(ctx.VerifDir)
 	var findings []Finding
 	addFinding := func(f Finding) { findings = append(findings, f) }
+	histStats := map[string]int{}
+	if ck.Hist != nil {
+		cfg := ck.Hist(ctx)
+		if ctx.Replay != "" {
+			cfg.Cases = 0
+			for _, sc := range loadReplayScripts(ctx.Replay) {
+				if len(sc) > 0 && (strings.HasPrefix(sc[0], "W ") || strings.HasPrefix(sc[0], "X ")) {
+					histScripts = append(histScripts, sc)
+				}
+			}
+		}
+		for i, sc := range histScripts {
+			c, outs, fs := replayScript(ctx, cfg, sc, i)
+			cases = append(cases, c)
+			impl = append(impl, outs)
+			model = append(model, outs)
+			findings = append(findings, fs...)
+		}
+		hc, ho, hf, st := runHistories(ctx, cfg, r.fork())
+		cases = append(cases, hc...)
+		impl = append(impl, ho...)
+		model = append(model, ho...) // histories are judged; not compared line by line with the model driver
+		findings = append(findings, hf...)
+		histStats = st
+	}
 
 	steps, compared, agree := 0, 0, 0
 	tagCount := map[string]int{}
@@ -330,7 +395,7 @@ func runCheck(ctx *Ctx, ck *Check, auditPath, factsStatus, evidencePath string) 
 					addFinding(*f)
 				}
 			}
-			if ck.Compare == nil || ck.Compare(line) {
+			if ci < napi && (ck.Compare == nil || ck.Compare(line)) {
 				compared++
 				if io_ == model[ci][li] {
 					agree++
@@ -500,6 +565,7 @@ func runCheck(ctx *Ctx, ck *Check, auditPath, factsStatus, evidencePath string) 
 		"known_findings_printed":        len(printedKnown),
 		"input_distribution":            tagCount,
 		"operation_outcomes":            answerKinds,
+		"history_step_outcomes":         histStats,
 		"exhaustive":                    ck.Exhaustive,
 		"facts_status":                  factsStatus,
 	}
